@@ -37,6 +37,7 @@ def plan(tier, seed):
   shapes = [p for m in range(1, 7) for p in gen.all_forests(m)]
   if tier == 'quick':
     shapes = [p for i, p in enumerate(shapes) if (i + seed) % 4 == 0]
+  shapes.sort(key=len)
   for i in range(0, len(shapes), 4):
     jobs.append({'kind': 'dyn', 'seed': seed, 'first': 300000 + i,
                  'count': len(shapes[i:i + 4]), 'shapes': shapes[i:i + 4]})
@@ -66,8 +67,13 @@ def run(job, mon):
   for c in range(job['first'], job['first'] + job['count']):
     rng = np.random.default_rng([job['seed'], c, 2])
     if 'shapes' in job:
+      # all bodies get a single non-free joint: different tree shapes with
+      # the same number of links then share the same link-type string, and are
+      # evaluated one after the other in the same process (anything cached on
+      # the type string alone shows up)
       spec = gen.gen_model(rng, parents=job['shapes'][c - job['first']],
-                           max_stack=2, limit_prob=0.2)
+                           single_origin=bool(c % 2), max_stack=1,
+                           free_root=False, limit_prob=0.2)
       mon.count('forest_shapes_enumerated')
     elif c % 4 == 3:
       spec = gen.gen_model(rng, stack_kinds=str(rng.choice(['slide', 'any'])),
